@@ -4,6 +4,7 @@
   ABI constants (`ELFMAGIC`, `EI_*`, `ELFCLASS*`, `EV_CURRENT`) come from the generated table.
 -/
 import ElfVerif.Model.ElfBytes
+import ElfVerif.Lemmas.StreamIdent
 namespace Elf.C10
 
 /-- What the ABI says the sixteen identification bytes mean, checked in the order
@@ -156,5 +157,21 @@ example : parseIdent .little (Slice.ofArray #[0x7f, 0x45, 0x4c, 0x46, 2, 2, 1, 3
 example : parseIdent .any (Slice.ofArray #[0x7f, 0x45, 0x4c, 0x46, 2, 2, 1, 3, 4, 0, 0, 0, 0, 0, 0, 0])
     = .ok (false, .ELF64, 3, 4) := by decide
 example : parseIdent .any (Slice.ofArray #[0x7f, 0x45, 0x4c]) = .err (.SliceReadError 0 16) := by decide
+
+/-! ## The stream parser reports the same identification defects -/
+
+/-- **Through `ElfStream` too**: over any legal reader, an identification defect of the first sixteen
+    bytes (as `identSpec` classifies it: bad magic, unsupported version, class or byte order — each
+    carrying the bytes found) is exactly the error `open_stream` returns. -/
+theorem stream_ident_defect (sp : Spec) (dev : Device) (hl : Legal dev.sched) (h16 : 16 ≤ dev.content.size)
+    (e : Err) (he : identSpec sp (identWindow dev.content) = .err e) :
+    ∃ d, openStream sp dev = (.err e, d) :=
+  open_stream_ident_error sp dev hl h16 e (by rw [parse_ident_spec]; exact he)
+
+/-- a stream shorter than the identification is refused (`BadOffset(16)`: the stream parser's name for
+    what the slice parser calls `SliceReadError(0, 16)`) -/
+theorem stream_too_short (sp : Spec) (dev : Device) (hl : Legal dev.sched) (h16 : dev.content.size < 16) :
+    ∃ d, openStream sp dev = (.err (.BadOffset 16), d) :=
+  open_stream_too_short sp dev hl h16
 
 end Elf.C10
